@@ -54,12 +54,19 @@ def run(ctx: Ctx) -> int:
         ctx.violation(f"{call}: {str(detail)[:400]}", path)
         ctx.samples.append({"case": call, "detail": str(detail)[:300]})
     ctx.samples.append({"example_terms": [str(t) for t in u[:: max(1, n // 12)]][:12]})
-    ctx.functions_encoded = ["tys/ty.py: unify, _unify_var, _occurs, _unify_args; TypeBase.substitute; tys/subst.py: Substituter; unsolved_vars of every type class"]
+    # stage 2: the consequence for generic calls, through the real check()
+    from lib.core import Job
+    nsh = ctx.pick(4, 16)
+    ctx.crosshair([Job("harness/C12_calls.py", "h_call", timeout=ctx.pick(300, 1500), name=f"h_call[generic calls,shard {i + 1}/{nsh}]",
+                       env={"VERIF_C12_LEVEL": level, "VERIF_C12_SHARD": f"{i}/{nsh}"}) for i in range(nsh)])
+    ctx.functions_encoded = ["tys/ty.py: unify, _unify_var, _occurs, _unify_args; TypeBase.substitute; tys/subst.py: Substituter; unsolved_vars of every type class",
+                             "checker/expr_checker.py: check_call, synthesize_call, type_check_args, ExprChecker.visit_Tuple / ExprSynthesizer (generic calls through the real check())"]
     ctx.bounds = {"terms": n, "grammar": "leaves int/float/None/inference vars a,b/bound var T; 1-/2-tuples, array[T,n] (n in 0,2,m,n), Option, list, two generic structs, "
                   "1-/2-input functions (owned/borrowed qubit inputs), generic function; " + ("plus nested tuple, Option[array], higher-order function" if ctx.quick else "one further constructor layer over a reduced inner pool"),
-                  "prior_substitutions": "8 consistent (acyclic, kind-correct) substitutions of <= 2 bindings", "cases": total, "exhaustive_over_grammar": True}
+                  "prior_substitutions": "8 consistent (acyclic, kind-correct) substitutions of <= 2 bindings", "cases": total, "exhaustive_over_grammar": True,
+                  "generic calls": "9 parameter shapes x 14 argument expressions for unary functions, and " + ("every 37th of the 15876 binary combinations" if ctx.quick else "all 15876 binary combinations")}
     ctx.outside_claim = ["terms outside the grammar", "kind-incorrect instantiations (copyable variable := qubit; variable := generic function type): skipped, rejected later by check_inst",
-                         "check_call/synthesize_call (the 'consequently' sentence is claimed only through unify)"]
+                         "generic calls beyond the grid of stage 2 (9 parameter shapes over T, U; 14 argument expressions of bool/int/tuple type; 1 and 2 parameters; no numeric coercions)"]
     ctx.assumptions = ["z3's theory of algebraic datatypes as the decision procedure for 'some assignment makes the terms identical' (acyclicity = occurs check)",
                        "the encoding of real Type objects into the datatype (harness/C12_unify.py:enc)"]
     return ctx.finish(
